@@ -111,7 +111,7 @@ macro_rules! c18_integer {
                 assert!(val(&Integer::div_floor(&a, &b).dg()) == fq, "div_floor rounds toward negative infinity");
                 assert!(val(&Integer::mod_floor(&a, &b).dg()) == fr, "mod_floor takes the sign of the divisor");
                 assert!(Integer::is_multiple_of(&a, &b) == (r == 0) && Integer::divides(&a, &b) == (r == 0), "is_multiple_of / divides");
-                $crate::reach!(adj && x < 0, "floor differs from truncation");
+                $crate::reach!(!S || (adj && x < 0), "floor differs from truncation");
             }
         });
     };
